@@ -12,7 +12,7 @@ def run(chk):
     ok = core.standard_proof_phase(chk, "C03", gen_needed=("ResultGen",))
     chk.notes["system_theorems"] = ["c03_rows_are_reference_partial", "c03_independent", "c03_summary_faithful"]
     chk.notes["partial"] = "completeness (no missing job in a fault-free acyclic run) is NOT proved in Coq: decided on impl by the oracle results == reference evaluation over all explored schedules, parameter sets and local mode; exit status propagation is C19"
-    syscheck.system_phase(chk, "C03", MODES, n_quick=200, n_thorough=4000, also=("C04",))
+    syscheck.system_phase(chk, "C03", MODES, n_quick=200, n_thorough=4000, also=("C04",), directed=("try_races_with_last_node",))
 
 
 def replay(path):
